@@ -364,3 +364,21 @@ def lemma_out_requires(quoter, B, p, C, q):
 
 def quoter_name(quoter):
     return INSTANCE_NAME[id(quoter)]
+
+
+# ---------------------------------------------------------------- type dispatch of the compiled __call__ methods
+
+def c_inner(self, val):
+    """the method __call__ delegates to (its own contract decides what it returns); natively the real call"""
+    name = type(self).__name__
+    return self._do_quote_or_skip(val) if name == "_Quoter" else self._do_unquote(val)
+
+
+def c_call(self, val):
+    """C19 / C05: None is passed through, a str (or an instance of a subclass, converted) is handed to
+    the worker method, anything else is a TypeError"""
+    if val is None:
+        return None
+    if not isinstance(val, str):
+        raise TypeError("Argument should be str")
+    return c_inner(self, val)
